@@ -118,6 +118,9 @@ POOL = [
     {"id": 7, "shape": gen.SHAPES["x"], "types": {"x": "IsK"}, "prio": 6, "body": "cn"},
 ]
 VALUES = {"k0": K0(), "k1": K1(), "z": Z(), "1": 1, "s": S()}
+# methods that call_next with a value they do not accept themselves (the fresh-call path of call_next)
+POOL.append({"id": 8, "shape": gen.SHAPES["x"], "types": {"x": "int"}, "prio": 0, "body": "cnv", "env": {"__v": VALUES["k1"]}})
+POOL.append({"id": 9, "shape": gen.SHAPES["x"], "types": {"x": "list"}, "prio": 1, "body": "cnv", "env": {"__v": VALUES["k0"]}})
 VALUES["[k0,k1]"] = [VALUES["k0"], VALUES["k1"]]
 VALUES["[[k1],1]"] = [[VALUES["k1"]], 1]
 SIGMA_NAMES = ["k0", "k1", "z", "1", "s", "[k0,k1]", "[[k1],1]"]
@@ -174,7 +177,9 @@ class CountModel(e2.Model):
         if out[0] == "ret":
             w.warm.add(c)
         if was_warm:
-            d = {k: v - snap.get(k, 0) for k, v in COUNTS.items() if v != snap.get(k, 0)}
+            # entering the cache-miss handler is not yet a computation (the fresh-call path of call_next
+            # does two dictionary look-ups there); resolve / sort_types / typeorder / hooks are
+            d = {k: v - snap.get(k, 0) for k, v in COUNTS.items() if v != snap.get(k, 0) and k != "MultiTypeMap.__missing__"}
             return (out, "warm", tuple(sorted(d.items())))
         return (out, "cold", None)
 
@@ -215,7 +220,7 @@ def programs(tier):
 
 def sigma_for(combo):
     s = ["k0", "k1", "z", "1", "s"]
-    if 5 in combo:
+    if 5 in combo or 9 in combo:
         s += ["[k0,k1]", "[[k1],1]"]
     return s
 
